@@ -48,6 +48,8 @@ def run_one(c, timeout):
         cmd.append(c["stats"])
     env = {"VERIF_OUT": out, "VERIF_MPI_FAULT": str(c["fault"]), "VM_FORCE_DEST": str(c.get("dest", 2)), "OMPI_MCA_btl": "self,vader,tcp", "OMPI_MCA_rmaps_base_oversubscribe": "1"}
     env.update(c.get("env") or {})
+    if c["pseed"] % 2:
+        env["VERIF_MALLOC_FILL"] = "255"
     res = vlib.run_case(cmd, timeout=timeout, env=env,
                         tag="m%d/%dx%d/ck%d/g%d/p%d/fp%d/v%d/f%d%s" % (c["mseed"], c["ranks"], c["threads"], c["ckpt"], c["gvt"], c["pseed"], c["fp"], c["variant"], c["fault"],
                                                                        "/TS=3" if c.get("env") else ""))
